@@ -805,10 +805,27 @@ pub fn explore_outage(sc: &Scenario, thorough: bool) -> ScenarioOutcome {
 }
 
 pub fn recheck_outage(sc: &Scenario, spec: &Option<StratSpec>, signature: &str) -> Option<String> {
-    let spec = spec.clone()?;
-    let (strategy, seed) = strategy_of(&spec, 60);
+    let mut spec = spec.clone()?;
+    if let Ok(v) = std::env::var("SIM_STRAT") {
+        // debugging aid: "pct:<depth>:<seed>:<est>" or "random:<seed>" instead of the recorded schedule
+        let parts: Vec<&str> = v.split(':').collect();
+        if parts[0] == "pct" {
+            spec = StratSpec::Pct { depth: parts[1].parse().unwrap(), seed: parts[2].parse().unwrap() };
+        } else if parts[0] == "random" {
+            spec = StratSpec::Random(parts[1].parse().unwrap());
+        }
+    }
+    let est: u32 = std::env::var("SIM_EST").ok().and_then(|s| s.parse().ok()).unwrap_or(60);
+    let (strategy, seed) = strategy_of(&spec, est);
     let res = run_scenario(sc, Some(strategy), None, seed, true);
     let sr = res.sched.clone()?;
+    if std::env::var("SIM_DEBUG").is_ok() {
+        eprintln!("[conc] trace ({} steps): {:?}", sr.steps, sr.trace);
+        eprintln!("[conc] fired {:?} missing {:?} live {:?} unavailable_ok {}", res.fired, res.missing_penalties, res.live, res.unavailable_ok);
+        for r in res.rpc_log.iter() {
+            eprintln!("[conc] rpc {:?}", r);
+        }
+    }
     let mut sigs: Vec<(String, String)> = vec![];
     if let Some(stuck) = &sr.stuck {
         if !res.node_down_when_stuck {
